@@ -63,16 +63,17 @@ def prepare(directory: Path, clean: bool = False):
 def execute(command: str | Path, arguments: list[str], working_dir: Path = Path(os.getcwd())) -> int:
     cwd = os.getcwd()
     os.chdir(working_dir)
-    if shutil.which(command):
-        full_command = f'{command} {" ".join([str(argument) for argument in arguments])}'
-        result = os.system(full_command)
-        if result != 0:
-            raise ExternalCommandException(full_command)
+    try:
+        if shutil.which(command):
+            full_command = f'{command} {" ".join([str(argument) for argument in arguments])}'
+            result = os.system(full_command)
+            if result != 0:
+                raise ExternalCommandException(full_command)
+            return result
+        else:
+            raise ExternalCommandException(f"Unknown command {command}")
+    finally:
         os.chdir(cwd)
-        return result
-    else:
-        os.chdir(cwd)
-        raise ExternalCommandException(f"Unknown command {command}")
 
 
 class PackageTarget(ABC):
